@@ -1,5 +1,5 @@
 """Classes of Deferred.tla."""
-from traits.api import HasTraits, Int, Instance, DelegatesTo, PrototypedFrom
+from traits.api import HasStrictTraits, HasTraits, Int, Instance, DelegatesTo, PrototypedFrom
 
 
 class P(HasTraits):
@@ -15,9 +15,17 @@ class P(HasTraits):
     xpa = Int(1)
 
 
+class StrictP(HasStrictTraits):
+    """a delegate of a strict class: the name `nope` is not declared on it"""
+    known = Int(1)
+
+
 class D(HasTraits):
     __prefix__ = "pp_"
     par = Instance(P)
+    # defers to a name the (strict) delegate does not declare: governed by the DELEGATE's rule - rejected
+    spar = Instance(StrictP, ())
+    sx = DelegatesTo("spar", "nope", listenable=False)
     a = DelegatesTo("par")
     b = DelegatesTo("par", "tb")
     c = DelegatesTo("par", "pre_*")
@@ -38,6 +46,8 @@ class D2(HasTraits):
 class DBase(HasTraits):
     """declares the same deferring attributes against ANOTHER delegate link (and other targets); DSub overrides them all"""
     __prefix__ = "pp_"
+    spar = Instance(StrictP, ())
+    sx = DelegatesTo("spar", "nope", listenable=False)
     par0 = Instance(P)
     par = Instance(P)
     a = DelegatesTo("par0", "tb")
